@@ -337,6 +337,69 @@ func c02RootValues(c *h.Ctx) {
 	})
 }
 
+// c02NullUnknownCase rebuilds the document of a generated case member by member, adding nulls for absent
+// non-required fields and unknown members (scalars, nested objects and arrays, strings ending in escapes).
+func c02NullUnknownCase(cs *h.Case) (*c02Case, bool, int) {
+	cc, ok := c02Make(cs)
+	if !ok {
+		return nil, false, 0
+	}
+	// rebuild the document member by member, adding nulls for absent non-required fields and unknown members
+	present := map[int16]bool{}
+	for _, f := range cc.model.Fs {
+		present[f.ID] = true
+	}
+	var parts []string
+	jo := JOpts{NoBase64Binary: cc.opts.NoBase64Binary}
+	hasUnknown := false
+	add := func(s string) { parts = append(parts, s) }
+	for _, f := range cc.model.Fs {
+		fd := cc.root.S.Field(f.ID)
+		if cs.R.Chance(25) {
+			uk := fmt.Sprintf("unknown_%d", cs.R.Intn(1000))
+			uv := []string{`1`, `"s"`, `null`, `{"a":[1,{"b":null}],"c":"}"}`, `[1,[2,[3]],"]"]`, `-1.5e3`, `true`,
+				`{"path":"C:\\"}`, `["a\\","b"]`, `"x\\"`, `{"q":"\"","r":{"s":"b\\"},"z":"}"}`, `[[],{},"\\\""]`}[cs.R.Intn(12)]
+			add(fmt.Sprintf("%q:%s", uk, uv))
+			hasUnknown = true
+		}
+		add(fmt.Sprintf("%q:%s", fieldKey(fd), RenderJSON(cs.R, f.V, fd.T, JSpell{WS: cs.R.Intn(2)}, jo)))
+	}
+	for _, fd := range cc.root.S.Fields {
+		if !present[fd.ID] && fd.Req != gen.ReqRequired && cs.R.Chance(50) {
+			add(fmt.Sprintf("%q:null", fieldKey(fd)))
+			cs.Cover("null_members")
+		}
+	}
+	// shuffle: document order decides the output order, so recompute the expected encoding
+	for i := len(parts) - 1; i > 0; i-- {
+		j := cs.R.Intn(i + 1)
+		parts[i], parts[j] = parts[j], parts[i]
+	}
+	cc.doc = "{" + strings.Join(parts, ",") + "}"
+	// expected = fields in document order
+	order := map[string]int{}
+	for i, p := range parts {
+		order[p[:strings.Index(p, ":")]] = i
+	}
+	m2 := cc.model.Clone()
+	for i := 0; i < len(m2.Fs); i++ {
+		for j := i + 1; j < len(m2.Fs); j++ {
+			ki := fmt.Sprintf("%q", fieldKey(cc.root.S.Field(m2.Fs[i].ID)))
+			kj := fmt.Sprintf("%q", fieldKey(cc.root.S.Field(m2.Fs[j].ID)))
+			if order[kj] < order[ki] {
+				m2.Fs[i], m2.Fs[j] = m2.Fs[j], m2.Fs[i]
+			}
+		}
+	}
+	cc.model = m2
+	cc.want = tref.Encode(m2)
+	cc.kind = "null-unknown"
+	if hasUnknown && cc.opts.DisallowUnknownField {
+		cc.wantErr = "unknown"
+	}
+	return cc, hasUnknown, len(parts)
+}
+
 func runC02(c *h.Ctx) {
 	defer c02RootValues(c)
 	// ---- conforming documents --------------------------------------------------------
@@ -373,64 +436,12 @@ func runC02(c *h.Ctx) {
 
 	// ---- null / unknown members ---------------------------------------------------------
 	c.Run("null-unknown", c.N(2500, 60000), func(cs *h.Case) {
-		cc, ok := c02Make(cs)
-		if !ok {
+		cc, hasUnknown, n := c02NullUnknownCase(cs)
+		if cc == nil {
 			return
 		}
-		// rebuild the document member by member, adding nulls for absent non-required fields and unknown members
-		present := map[int16]bool{}
-		for _, f := range cc.model.Fs {
-			present[f.ID] = true
-		}
-		var parts []string
-		jo := JOpts{NoBase64Binary: cc.opts.NoBase64Binary}
-		hasUnknown := false
-		add := func(s string) { parts = append(parts, s) }
-		for _, f := range cc.model.Fs {
-			fd := cc.root.S.Field(f.ID)
-			if cs.R.Chance(25) {
-				uk := fmt.Sprintf("unknown_%d", cs.R.Intn(1000))
-				uv := []string{`1`, `"s"`, `null`, `{"a":[1,{"b":null}],"c":"}"}`, `[1,[2,[3]],"]"]`, `-1.5e3`, `true`}[cs.R.Intn(7)]
-				add(fmt.Sprintf("%q:%s", uk, uv))
-				hasUnknown = true
-			}
-			add(fmt.Sprintf("%q:%s", fieldKey(fd), RenderJSON(cs.R, f.V, fd.T, JSpell{WS: cs.R.Intn(2)}, jo)))
-		}
-		for _, fd := range cc.root.S.Fields {
-			if !present[fd.ID] && fd.Req != gen.ReqRequired && cs.R.Chance(50) {
-				add(fmt.Sprintf("%q:null", fieldKey(fd)))
-				cs.Cover("null_members")
-			}
-		}
-		// shuffle: document order decides the output order, so recompute the expected encoding
-		for i := len(parts) - 1; i > 0; i-- {
-			j := cs.R.Intn(i + 1)
-			parts[i], parts[j] = parts[j], parts[i]
-		}
-		cc.doc = "{" + strings.Join(parts, ",") + "}"
-		// expected = fields in document order
-		order := map[string]int{}
-		for i, p := range parts {
-			order[p[:strings.Index(p, ":")]] = i
-		}
-		m2 := cc.model.Clone()
-		for i := 0; i < len(m2.Fs); i++ {
-			for j := i + 1; j < len(m2.Fs); j++ {
-				ki := fmt.Sprintf("%q", fieldKey(cc.root.S.Field(m2.Fs[i].ID)))
-				kj := fmt.Sprintf("%q", fieldKey(cc.root.S.Field(m2.Fs[j].ID)))
-				if order[kj] < order[ki] {
-					m2.Fs[i], m2.Fs[j] = m2.Fs[j], m2.Fs[i]
-				}
-			}
-		}
-		cc.model = m2
-		cc.want = tref.Encode(m2)
-		cc.kind = "null-unknown"
-		if hasUnknown && cc.opts.DisallowUnknownField {
-			cc.wantErr = "unknown"
-		}
 		c02Run(cs, cc)
-		cs.Distinct(fmt.Sprintf("nu-%v-%v-%d", hasUnknown, cc.opts.DisallowUnknownField, len(parts)))
+		cs.Distinct(fmt.Sprintf("nu-%v-%v-%d", hasUnknown, cc.opts.DisallowUnknownField, n))
 	})
 
 	// ---- kind contradictions / malformed inside -------------------------------------------
